@@ -165,19 +165,19 @@ FNS = [
     fn("available_elements_count", impl=IMPL_PUB, props=["C02", "C15", "C16", "C13"],
        sig="pub fn available_elements_count(&self) -> (r: usize)", sig_anchor=r"fn available_elements_count\(&self\) -> usize",
        ensures="r as int == self.len()"),
-    fn("release_leaked_internal", props=["C01", "C02", "C15", "C13"], attrs="#[verifier::exec_allows_no_decreases_clause]",
+    fn("release_leaked_internal", props=["C01", "C02", "C15", "C13", "C08"], attrs="#[verifier::exec_allows_no_decreases_clause]",
        sig="pub fn release_leaked_internal(&mut self, slot_id: u32)", sig_anchor=r"pub fn release_leaked_internal\(&self, slot_id: u32\)",
        rules=[Rule("R8-break", r"Ok\(_\) => break,", "Ok(_) => return,", count=1, note="`break` of the tail loop -> `return`")],
        requires="old(self).head@ == slot_id",
        ensures="final(self).head@ == slot_id.wrapping_add(1), final(self).tail == old(self).tail && final(self).dequeuer_head == old(self).dequeuer_head && final(self).enqueuer_tail == old(self).enqueuer_tail && final(self).written == old(self).written && final(self).moved_out == old(self).moved_out",
        loops={0: "invariant self.head@ == slot_id, self.tail == old(self).tail && self.dequeuer_head == old(self).dequeuer_head && self.enqueuer_tail == old(self).enqueuer_tail && self.written == old(self).written && self.moved_out == old(self).moved_out,"}),
-    fn("consume_leaking_internal", props=["C01", "C02", "C15", "C13"], attrs="#[verifier::exec_allows_no_decreases_clause]",
+    fn("consume_leaking_internal", props=["C01", "C02", "C15", "C13", "C08"], attrs="#[verifier::exec_allows_no_decreases_clause]",
        sig="pub fn consume_leaking_internal<ReportEmptyFn: Fn() -> bool>(&mut self, report_empty_fn: ReportEmptyFn) -> (r: Option<(usize, u32, i32)>)",
        sig_anchor=r"fn consume_leaking_internal\(&self, report_empty_fn: impl Fn\(\) -> bool\) -> Option<\(&'a mut SlotType, u32, i32\)>",
        rules=[MUTBUF,
               Rule("R6-slot-index", r"let (\w+) = unsafe \{ mutable_buffer\.get_unchecked_mut\(([^()]*)\) \};", r"let \1 = Self::slot_at(\2);", count=1, note="slot reference -> index (bound obligation)"),
               Rule("R8-break-value", r"break Some\( \(([^()]*)\) \)", r"return Some( (\1) );", count=1)],
-       hints=[(r"let tail = self\.tail\.load\(Relaxed\);", "proof { let d: u32 = tail.wrapping_sub(slot_id); assert(d >= 0x8000_0000u32 ==> (d as i32) < 0i32) by(bit_vector); assert(d < 0x8000_0000u32 ==> (d as i32) >= 0i32 && (d as i32) as u32 == d) by(bit_vector); }")],
+       hints=[(r"let tail = self\.\w+\.load\(Relaxed\);", "proof { let d: u32 = tail.wrapping_sub(slot_id); assert(d >= 0x8000_0000u32 ==> (d as i32) < 0i32) by(bit_vector); assert(d < 0x8000_0000u32 ==> (d as i32) >= 0i32 && (d as i32) as u32 == d) by(bit_vector); }")],
        requires="old(self).inv(), forall|r: bool| report_empty_fn.ensures((), r) ==> !r, report_empty_fn.requires(())",
        ensures="final(self).same_but_dequeuer_head(old(self)),"
                "old(self).len() - old(self).taken() > 0 ==> (r matches Some((idx, id, len_before)) && id == old(self).dequeuer_head@ && idx == id as usize % BUFFER_SIZE"
